@@ -765,7 +765,7 @@ class C20:
         if sh["kind"] == "real":
             rng = random.Random(f"{sh['seed']}/C20/real/{sh['index']}")
             cases = []
-            for h in range(sh["n"]):
+            for h in harness.budgeted(range(sh["n"]), rec):
                 steps = []
                 for _ in range(sh["steps"]):
                     r = rng.random()
@@ -788,7 +788,7 @@ class C20:
         self._setup()
         rng = random.Random(f"{sh['seed']}/C20/{sh['index']}")
         if sh["kind"] == "conc":
-            for i in range(sh["n"]):
+            for i in harness.budgeted(range(sh["n"]), rec):
                 case = {"kind": "conc", "seed": sh["seed"], "rseed": f"{sh['seed']}/{sh['index']}/{i}", "steps": 40, "p": 0.02}
                 if i < 1:
                     rec.sample(case, "concurrent")
@@ -800,7 +800,7 @@ class C20:
                 rec.setadd("functions_hit", f)
             self.inj.stop()
             return
-        for h in range(sh["n"]):
+        for h in harness.budgeted(range(sh["n"]), rec):
             steps = []
             for _ in range(sh["steps"]):
                 r = rng.random()
